@@ -244,4 +244,142 @@ theorem string_converters_no_write_outside_witness :
   rw [hd] at this
   simp [hf] at this
 
+
+/-! ## 4. single characters -/
+
+/-- sane arguments of wcrtomb_s / wctomb_s -/
+structure SaneC (a : CArgs) (cells : List Nat) : Prop where
+  rv : a.retvalNull = false
+  ps : a.psNull = false
+  dest : a.dest = some cells
+  dpos : 0 < a.dmax
+  dmaxle : a.dmax ≤ RSIZE_MAX_WSTR
+  bos : a.bos = none
+  truthful : a.dmax ≤ cells.length
+
+example : SaneC { dest := some [1, 2, 3, 4], dmax := 4, wc := 0x20AC } [1, 2, 3, 4] := ⟨rfl, rfl, rfl, by decide, by decide, rfl, by decide⟩
+
+private theorem entryC_none (a : CArgs) {cells} (hs : SaneC a cells) : entryC a = none := by
+  have h1 : ¬ a.dmax = 0 := by have := hs.dpos; omega
+  have h2 : ¬ a.dmax > RSIZE_MAX_WSTR := by have := hs.dmaxle; omega
+  simp [entryC, hs.dest, h1, hs.bos, h2]
+
+/-- **wcrtomb_s = wcrtomb when the character fits**: for every wide character (valid or not), locale, dmax: if libc's
+byte count is < dmax the call returns EOK, that count, exactly libc's bytes followed by a terminator, nothing stored
+outside `dest[0..dmax)`; in every other case the handler is called once with the code returned and dest is cleared -/
+theorem wcrtomb_s_C15 (cfg : Cfg) (a : CArgs) {cells} (hs : SaneC a cells) :
+    let bs := (Libc.wcrtomb cfg.loc false a.wc).1
+    let n := (Libc.wcrtomb cfg.loc false a.wc).2.1
+    (n < a.dmax → Delivered (wcrtomb_s cfg a) cells a.dmax ⟨bs, n, none, [], false⟩ true) ∧
+    (¬ n < a.dmax → Reported (wcrtomb_s cfg a) cells a.dmax cfg.slack ∧ (wcrtomb_s cfg a).retval = some n ∧
+      (cfg.fx.rc = true → (wcrtomb_s cfg a).ret = if n = SIZE_MAX then EILSEQ else ESNOSPC)) := by
+  intro bs n
+  have hbn : n = SIZE_MAX ∨ bs.length = n := by
+    show (Libc.wcrtomb cfg.loc false a.wc).2.1 = SIZE_MAX ∨ (Libc.wcrtomb cfg.loc false a.wc).1.length = (Libc.wcrtomb cfg.loc false a.wc).2.1
+    simp only [Libc.wcrtomb, Bool.false_eq_true, ↓reduceIte]
+    split
+    · right; rfl
+    · split
+      · left; rfl
+      · right; rfl
+  have hmk : a.dest.map (fun c => ({ cells := c } : D)) = some { cells := cells } := by simp [hs.dest]
+  have hd : a.dest.isNone = false := by simp [hs.dest]
+  constructor
+  · intro hlt
+    have hne : n ≠ SIZE_MAX := by have := hs.dmaxle; simp only [RSIZE_MAX_WSTR, SIZE_MAX] at *; omega
+    have hlen : bs.length = n := hbn.resolve_left hne
+    have hlt' : (Libc.wcrtomb cfg.loc false a.wc).2.1 < a.dmax := hlt
+    obtain ⟨k, hk, hk1, hk2⟩ : ∃ k, (if cfg.slack then a.dmax - n else 1) = k ∧ 1 ≤ k ∧ n + k ≤ a.dmax :=
+      ⟨_, rfl, by split <;> omega, by split <;> omega⟩
+    have key := stored_then_zeroed cells bs n k (by omega) (by omega) hk1 (by have := hs.truthful; omega)
+    have hdest : (wcrtomb_s cfg a).dest = some ((({ cells := cells } : D).write 0 bs).zero n k) := by
+      rw [← hk]
+      cases hsl : cfg.slack <;> cases hst : cfg.fx.stage <;>
+        simp [wcrtomb_s, hs.rv, hs.ps, entryC_none a hs, hd, hmk, hlt', hsl, hst] <;> rfl
+    have hret : (wcrtomb_s cfg a).ret = EOK ∧ (wcrtomb_s cfg a).retval = some n ∧ (wcrtomb_s cfg a).ev = [] := by
+      cases hsl : cfg.slack <;> cases hst : cfg.fx.stage <;>
+        simp [wcrtomb_s, hs.rv, hs.ps, entryC_none a hs, hd, hmk, hlt', hsl, hst] <;> rfl
+    have := key.2.1
+    exact ⟨hret.1, hret.2.1, hret.2.2, _, hdest, key.1, by omega, key.2.2.1, key.2.2.2.1,
+      fun _ => key.2.2.2.2 n (Nat.le_refl _) (by omega)⟩
+  · intro hlt
+    have hlt' : ¬ (Libc.wcrtomb cfg.loc false a.wc).2.1 < a.dmax := hlt
+    obtain ⟨w, hw⟩ : ∃ w : List Nat, (wcrtomb_s cfg a).dest = some (clearCells cfg.slack (({ cells := cells } : D).write 0 w) a.dmax) := by
+      cases hst : cfg.fx.stage
+      · exact ⟨bs, by simp [wcrtomb_s, hs.rv, hs.ps, entryC_none a hs, hd, hmk, hlt', hst]; rfl⟩
+      · exact ⟨[], by simp [wcrtomb_s, hs.rv, hs.ps, entryC_none a hs, hd, hmk, hlt', hst, D.write]⟩
+    have key := stored_then_cleared cfg.slack cells w a.dmax hs.dpos hs.truthful
+    have hev : (wcrtomb_s cfg a).ev = [(wcrtomb_s cfg a).ret] ∧ (wcrtomb_s cfg a).retval = some n := by
+      simp [wcrtomb_s, hs.rv, hs.ps, entryC_none a hs, hd, hmk, hlt']; rfl
+    refine ⟨⟨hev.1, _, hw, key.1, key.2.1, key.2.2⟩, hev.2, ?_⟩
+    intro hrc
+    simp [wcrtomb_s, hs.rv, hs.ps, entryC_none a hs, hd, hmk, hlt', hrc]; rfl
+
+/-! ## 5. what the tree as it is gets wrong: kernel-checked witnesses (each replayed on the real C by the check) -/
+
+/-- wcrtomb_s(dest[1], dmax = 1, U+0080): libc stores 2 bytes before the length is looked at -/
+theorem wcrtomb_s_no_write_outside_witness :
+    (wcrtomb_s { slack := true, loc := .UTF8, fx := unrepaired } { dest := some [0x50], dmax := 1, wc := 0x80 }).dest.map (·.fault) = some true := by
+  decide
+/-- repaired (fixes/wchar-2-stage.diff): the same call reports ESNOSPC without touching anything beyond dmax -/
+theorem wcrtomb_s_no_write_outside_fixed_example :
+    (wcrtomb_s { slack := true, loc := .UTF8, fx := allFixed } { dest := some [0x50], dmax := 1, wc := 0x80 }).dest.map (fun d => (d.fault, d.hi)) = some (false, 1) := by
+  decide
+theorem wctomb_s_no_write_outside_witness :
+    (wctomb_s { slack := true, loc := .UTF8, fx := unrepaired } { dest := some [0x50], dmax := 1, wc := 0x80 }).dest.map (·.fault) = some true := by
+  decide
+
+/-- mbsrtowcs_s("a" E2 82 "z", len = 2): libc fails inside the 3-byte character whose first two bytes it had consumed;
+the re-scan from 'z' succeeds and the function returns EOK (handler called with code 0) -/
+theorem mbsrtowcs_s_invalid_reported_witness :
+    let o := mbsrtowcs_s { slack := true, loc := .UTF8, fx := unrepaired }
+      { dest := some [9, 9, 9, 9, 9], dmax := 5, src := some [0x61, 0xE2, 0x82, 0x7A, 0], len := 2 }
+    o.ret = EOK ∧ o.retval = some SIZE_MAX ∧ o.ev = [0] ∧ o.st = [0xE2, 0x82] := by
+  decide
+/-- repaired (fixes/wchar-3-rc.diff): EILSEQ -/
+theorem mbsrtowcs_s_invalid_reported_fixed_example :
+    (mbsrtowcs_s { slack := true, loc := .UTF8, fx := allFixed }
+      { dest := some [9, 9, 9, 9, 9], dmax := 5, src := some [0x61, 0xE2, 0x82, 0x7A, 0], len := 2 }).ret = EILSEQ := by
+  decide
+
+/-- the conversion state is NOT initial after that failed call (glibc keeps the pending bytes; the wrapper passes
+them on) — in the repaired code too: known finding `mbsrtowcs_s-state-left-pending-after-error` -/
+theorem mbsrtowcs_s_state_usable_witness :
+    (mbsrtowcs_s { slack := true, loc := .UTF8, fx := allFixed }
+      { dest := some [9, 9], dmax := 2, src := some [0x41, 0], len := 1, ps := [0xE2] }).st ≠ [] := by
+  decide
+
+/-- size query with a stale errno: mbsrtowcs_s(&n, NULL, 0, &"ab", …) with errno = 34 on entry returns 34 -/
+theorem mbsrtowcs_s_query_code_witness :
+    (mbsrtowcs_s { slack := true, loc := .UTF8, fx := unrepaired }
+      { dest := none, dmax := 0, src := some [0x61, 0x62, 0], len := 0, errno0 := 34 }).ret = 34 := by
+  decide
+theorem mbsrtowcs_s_query_code_fixed_example :
+    let o := mbsrtowcs_s { slack := true, loc := .UTF8, fx := allFixed }
+      { dest := none, dmax := 0, src := some [0x61, 0x62, 0], len := 0, errno0 := 34 }
+    o.ret = EOK ∧ o.retval = some 2 := by
+  decide
+
+/-- wcstombs_s of the empty wide string: libc converts 0 bytes, which fit, yet ESNOSPC and a handler call -/
+theorem wcstombs_s_empty_witness :
+    let o := wcstombs_s { slack := true, loc := .UTF8, fx := unrepaired } { dest := some [0x50], dmax := 1, src := some [0], len := 1 }
+    o.ret = ESNOSPC ∧ o.ev = [ESNOSPC] := by
+  decide
+theorem wcstombs_s_empty_fixed_example :
+    let o := wcstombs_s { slack := true, loc := .UTF8, fx := allFixed } { dest := some [0x50], dmax := 1, src := some [0], len := 1 }
+    o.ret = EOK ∧ o.retval = some 0 ∧ o.dest.map (·.cells) = some [0] := by
+  decide
+
+/-- wcsrtombs_s without SAFECLIB_STR_NULL_SLACK, len = 2 = the converted length: EOK, dest[2] still holds 0x52 -/
+theorem wcsrtombs_s_terminated_witness :
+    let o := wcsrtombs_s { slack := false, loc := .UTF8, fx := unrepaired }
+      { dest := some [0x50, 0x51, 0x52, 0x53], dmax := 4, src := some [0x61, 0x62, 0], len := 2 }
+    o.ret = EOK ∧ o.dest.map (·.cells) = some [0x61, 0x62, 0x52, 0x53] := by
+  decide
+
+/-- mbstowcs_s(&n, NULL, 3, NULL, 3): the clearing store goes through the NULL dest -/
+theorem mbstowcs_s_null_src_witness :
+    (mbstowcs_s { slack := true, loc := .UTF8, fx := unrepaired } { dest := none, dmax := 3, src := none, len := 3 }).nullw = true := by
+  decide
+
 end SafeC.Props.C15
